@@ -48,7 +48,13 @@ def nontrivial(case):
 
 def classify(case):
     return ["thr:" + ("default" if case["thresholds"] == "default" else "len%d" % len(case["thresholds"])),
-            "ploidy:%d" % case["ploidy"], "baf" if case["with_baf"] else "nobaf"]
+            "ploidy:%d" % case["ploidy"], "baf" if case["with_baf"] else "nobaf", _ilabel(case)]
+
+
+def _ilabel(case):
+    from vk import gen
+
+    return gen.index_label(gen.spec_for(case))
 
 
 def known(case, v):
@@ -110,6 +116,9 @@ def check_case(case):
     df = pd.DataFrame.from_records(recs, columns=cols)
     if not case["with_baf"]:
         df = df.drop(columns=["baf"])
+    from vk import gen
+
+    gen.relabel(df, gen.spec_for(case))
     cnarr = CopyNumArray(df, {"sample_id": "s"})
     before = cnarr.data.copy()
     kw = {} if case["thresholds"] == "default" else {"thresholds": tuple(thr)}
